@@ -151,6 +151,16 @@ def _decide(ctx, traces):
         t = ok[i]
         ctx.violation("real run rejected by TraceSampling at '%s': %s" % (clause, json.dumps({k: v for k, v in t.items() if k not in ("events", "streams")})),
                       {"kind": "raw", "trace": {k: t[k] for k in ("what", "kind", "b", "t", "n")}, "clause": clause})
+    runs = [t for t in ok if t["what"] == "run" and t["kind"] == "mcmc" and t["b"] + t["n"] * t["t"] >= 3]
+    if not bad and runs:
+        from harness.tracecheck import selftest
+
+        def corrupt(t):
+            i = [k for k, e in enumerate(t["events"]) if e["ev"] == "step"][1]
+            del t["events"][i]
+            return "one logged model step removed (as if the hook had not fired)"
+        selftest(ctx, "TraceSampling", runs[0], corrupt, decide=None, next_="TNext", init="TInit",
+                 constants={"MaxB": 0, "MaxT": 1, "MaxN": 1, "Export": False})
     for t in ok:
         if t["what"] == "run":
             ctx.sample({"code_to_spec": {k: (v if k != "events" else v[:12] + ["..."] + v[-2:]) for k, v in t.items()}})
